@@ -111,9 +111,10 @@ func (s *dockerService) Handle(ctx context.Context, conn net.Conn) error {
 
 	defer conn.Close()
 
-	for {
+	// one buffered reader for the whole connection, so that pipelined requests are not lost
+	br := bufio.NewReader(conn)
 
-		br := bufio.NewReader(conn)
+	for {
 
 		req, err := http.ReadRequest(br)
 		if err == io.EOF {
@@ -124,8 +125,9 @@ func (s *dockerService) Handle(ctx context.Context, conn net.Conn) error {
 
 		body := make([]byte, 1024)
 
-		n, err := req.Body.Read(body)
-		if err != nil && err != io.EOF {
+		// a single Read returns whatever has arrived so far: fill the buffer
+		n, err := io.ReadFull(req.Body, body)
+		if err != nil && err != io.EOF && err != io.ErrUnexpectedEOF {
 			return err
 		}
 
